@@ -68,6 +68,34 @@ def main():
         ok = False
         print("wrapper names differ:\n  only in bindings.h: %s\n  only in the model's output: %s" % (sorted(set(ref_w) - set(got_w)), sorted(set(got_w) - set(ref_w))))
     print("# anchor: %d CGlue structure names and %d wrapper names of examples/pregen-headers/bindings.h %s" % (len(ref_s), len(ref_w), "reproduced" if ok else "NOT reproduced"))
+    # the same for C++ mode against bindings.hpp: template structure names and member-function names
+    mc = dict(m)
+    cpp_ret = {FG_BOX: "FeaturesGroup<CBox<void>, CArc<void>>", FG_MUT + " *": "FeaturesGroup<void*, CArc<void>> *"}
+    mc["traits"] = [dict(t, funcs=[(f[0], f[1], f[2], cpp_ret.get(f[3], f[3])) for f in t["funcs"]]) for t in m["traits"]]
+    hpp, _ = hdrgen.render_cpp(mc)
+    hp2 = os.path.join(d, "input.hpp")
+    with open(hp2, "w") as f:
+        f.write(hpp)
+    r2 = gensim.run_tool(d, hp2, {"default_container": "Box", "default_context": "Arc"}, 0, 2)
+    if r2["rc"] != 0 or r2["output"] is None:
+        print("tool failed in C++ mode:", r2["stderr"])
+        return 2
+
+    def cpp_names(text):
+        st = set(re.findall(r"^struct (\w+)", text, re.M))
+        fn = set(x for pair in re.findall(r"^    inline \S.*?(\w+)\(\) |^    inline [^\n]*? (\w+)\(", text, re.M) for x in pair if x)
+        return st, fn
+
+    got_cs, got_cf = cpp_names(r2["output"].decode())
+    with open(os.path.join(REPO, "examples", "pregen-headers", "bindings.hpp")) as f:
+        ref_cs, ref_cf = cpp_names(f.read())
+    payload = {"CIterator", "CPPIterator", "KeyValue", "TypeLayout", "ArgPair", "CSliceMut", "UserTail"}
+    ds = (ref_cs ^ got_cs) - payload
+    df = (ref_cf ^ got_cf) - {"assume_init"}
+    if ds or df:
+        ok = False
+        print("C++ mode: names differ: structures %s, member functions %s" % (sorted(ds), sorted(df)))
+    print("# anchor: %d structure names and %d member-function names of bindings.hpp %s" % (len(ref_cs - payload), len(ref_cf), "reproduced" if not (ds or df) else "NOT reproduced"))
     return 0 if ok else 1
 
 
